@@ -39,7 +39,11 @@ def run_lemma(vf, lem):
                 pass
             except PyExc as e:
                 # a step of the harness raised: that must be impossible under the lemma's assumptions
-                eng.prove(f"lemma:{lem.name}:no-exception", False, "lemma", None, assume_after=False, detail=f"{e}")
+                goal = False
+                if lem.exc_ok and getattr(eng, "lemma_frame", None) is not None:
+                    goal = eng.eval_spec_bool(lem.exc_ok, eng.lemma_frame)
+                eng.prove(f"lemma:{lem.name}:no-exception", goal, "lemma", None, assume_after=False,
+                          detail=f"{e}" + (f" allowed only if {lem.exc_ok}" if lem.exc_ok else ""))
                 _collect(eng, res)
             pending.extend(eng.pending)
         if res.get("canaries", 0) > 0 and res.get("canary_proved", 0) == res.get("canaries"):
@@ -63,6 +67,7 @@ def _run_lemma_path(vf, eng, lem, res):
     else:
         mod = ModuleInfo.get(here, "contracts/specs_py.py")
     frame = Frame(mod, "lemma:" + lem.name)
+    eng.lemma_frame = frame
     env = {}
     for name, ty in lem.forall.items():
         env[name] = eng.make(ty, name)
